@@ -30,10 +30,11 @@ func (g *Gen) randomLeaf(s schema) Clause {
 			cl.Cmp, cl.Arg = "in", &Val{T: []string{"ints", "ifaces"}[g.rng.Intn(2)], L: l}
 		case r < 52:
 			cl.Cmp, cl.Arg = "in", &Val{T: "floats", L: []Val{{T: "float", F: "1"}, {T: "float", F: "2.5"}}}
-		case r < 64:
+		case r < 60:
 			cl.Cmp, cl.Arg = g.oneOf(ord), &Val{T: "col", S: toBS(same("int"))}
 		case r < 70:
 			cl.Cmp, cl.Arg = g.oneOf(ord), &Val{T: "col", S: toBS(same("float"))}
+			cl.Inv = g.rng.Intn(2) == 0 // negated comparisons with a nullable argument column
 		case r < 76:
 			cl.Cmp = []string{"isnull", "isnotnull"}[g.rng.Intn(2)]
 		case r < 82:
@@ -168,7 +169,7 @@ func (g *Gen) randomClause(s schema, depth int) Clause {
 func genC02(g *Gen) {
 	colsets := []string{"ABCFG", "ACFST", "SREDX", "ABTU", "FGSE", "CEDXY", "ABCFGTUSREDXY"}
 	sizes := []int{0, 1, 2, 3, 4, 6, 9, 14, 25, 60, 300}
-	for rep := 0; rep < g.pick(120, 4000); rep++ {
+	for rep := 0; rep < g.pick(300, 5000); rep++ {
 		n := sizes[g.rng.Intn(g.pick(9, len(sizes)))]
 		g.begin("filter")
 		f := g.do(g.stdNew(n, colsets[g.rng.Intn(len(colsets))], 10))
